@@ -22,14 +22,14 @@ pub fn main(sub: &str, args: &[String]) -> i32 {
     }
 }
 
-struct Obs {
-    code: i64, // exit code; -1 = killed by a signal; -2 = timeout
-    stdout: String,
-    stdout_utf8: bool,
-    stderr_len: usize,
+pub struct Obs {
+    pub code: i64, // exit code; -1 = killed by a signal; -2 = timeout
+    pub stdout: String,
+    pub stdout_utf8: bool,
+    pub stderr_len: usize,
 }
 
-fn run_tool(bin: &str, args: &[String], stdin_text: &str) -> Obs {
+pub fn run_tool(bin: &str, args: &[String], stdin_text: &str) -> Obs {
     let mut child = match Command::new(bin)
         .args(args)
         .stdin(Stdio::piped())
@@ -178,7 +178,7 @@ fn signature_of_text(text: &str) -> J {
 }
 
 /// the library's own compact serialization of the nodes the specification selects, one per line
-fn render_selected(text: &str, tree: &J, sel: &[i64]) -> Option<String> {
+pub fn render_selected(text: &str, tree: &J, sel: &[i64]) -> Option<String> {
     let doc = crate::xp::load_doc(text, tree).ok()?;
     if doc.mismatch.is_some() {
         return None;
